@@ -54,12 +54,14 @@ def make_line(np, sparse, lid, kind, engine):
                     logit_coords=[0, lg.shape[0]], transcription_confidence=0.123, index=7)
 
 
-def make_layout(np, sparse, kinds, engine):
+def make_layout(np, sparse, kinds, engine, mixed=False):
+    """mixed: the lines of one page carry different character tables, as the result of an earlier merge of engines with
+    different charsets does (merging is applied repeatedly: merge(merge(A, B), C))"""
     from pero_ocr.core.layout import PageLayout, RegionLayout
     pl = PageLayout(id='page', page_size=(100, 100))
     reg = RegionLayout('r1', np.array([[0, 0], [90, 0], [90, 90], [0, 90]]))
     for li, k in enumerate(kinds):
-        reg.lines.append(make_line(np, sparse, 'r1-l%03d' % li, k, engine))
+        reg.lines.append(make_line(np, sparse, 'r1-l%03d' % li, k, engine + (li if mixed else 0)))
     pl.regions.append(reg)
     return pl
 
@@ -73,7 +75,9 @@ def snapshot(line):
 
 def check_case(np, sparse, mor, engines_kinds, alias=None):
     """engines_kinds: tuple (per engine) of tuples (per line) of kinds. returns list of problems"""
-    layouts = [make_layout(np, sparse, ks, e) for e, ks in enumerate(engines_kinds)]
+    layouts = [make_layout(np, sparse, ks, e, mixed=(alias == 'mixed')) for e, ks in enumerate(engines_kinds)]
+    if alias == 'mixed':
+        alias = None
     if alias == 'same':
         layouts = [layouts[0], layouts[0]]
     elif alias == 'copy':
@@ -159,6 +163,11 @@ def cases(thorough):
             per_engine = list(itertools.product(KINDS, repeat=nl))
             for ek in itertools.product(per_engine, repeat=n):
                 cs.append((ek, None))
+    # pages whose lines carry different character tables (outputs of an earlier merge)
+    per_engine = list(itertools.product(KINDS, repeat=2))
+    for n in (1, 2):
+        for ek in itertools.product(per_engine, repeat=n):
+            cs.append((ek, 'mixed'))
     for nl in (1, 2):
         for ks in itertools.product(KINDS, repeat=nl):
             cs.append(((ks,), 'same'))
@@ -189,7 +198,7 @@ def run(ctx):
         fails.append(Failure(sig('rt', 'merge_layouts'), 'run-time contract of merge_layouts fails: %s on %s' % (f['observed'], f['input']),
                              function='merge_layouts', input=f['input'], observed=f['observed'],
                              expected='fields of the first arg-max engine; maximum recorded when positive; nothing else changes'))
-    ctx.add_bounded('merge-engines', 'tuples of 1..3 engines x 1..2 lines, line kinds %r (ties, empty, exact-zero confidence), different charsets per engine; self-merge aliased / deep-copied' % KINDS,
+    ctx.add_bounded('merge-engines', 'tuples of 1..3 engines x 1..2 lines, line kinds %r (ties, empty, exact-zero confidence), different charsets per engine, and pages whose lines carry different charsets (outputs of an earlier merge); self-merge aliased / deep-copied' % KINDS,
                     res['evaluations'], res['nontrivial'], True, res['samples'], fails,
                     rule='every tuple of engine outputs in the domain; non-trivial = >= 2 engines with differing line kinds',
                     clause='same contract on real PageLayout/TextLine objects with the real get_confidences')
